@@ -14,6 +14,7 @@ Call histories: every sequence of valid and failing calls (incl. files that fail
 """
 import gzip
 import itertools
+import time as _time
 import multiprocessing
 import os
 import threading
@@ -48,12 +49,23 @@ def file_index_of(ctl, args, kwargs, fallback):
 	"""Which input file a submitted task is about (looked up among its arguments) - so the harness does not assume that tasks are
 	submitted in file order."""
 	from gambit.seq import SequenceFile
+	found = []
+
+	def walk(x, depth=0):
+		if isinstance(x, SequenceFile):
+			if str(x.path) in ctl.index:
+				occ = ctl.occ.get(str(x.path))
+				# a file given several times: the k-th task about it stands for its k-th occurrence in the list
+				found.append(occ.pop(0) if occ else ctl.index[str(x.path)])
+		elif isinstance(x, (list, tuple)) and depth < 3:
+			for y in x:
+				walk(y, depth + 1)
 	for x in list(args) + list(kwargs.values()):
-		if isinstance(x, SequenceFile) and str(x.path) in ctl.index:
-			occ = ctl.occ.get(str(x.path))
-			if occ:
-				return occ.pop(0)        # a file given several times: the k-th task about it stands for its k-th occurrence in the list
-			return ctl.index[str(x.path)]
+		walk(x)
+	if len(found) == 1:
+		return found[0]
+	if found:
+		return found          # one task about SEVERAL files (an implementation may batch): the files in the order the task will open them
 	return fallback
 
 
@@ -75,6 +87,7 @@ class Ctl:
 		self.futs = []
 		self.submitted = []
 		self.fut_done = [threading.Event() for _ in range(n)]
+		self.pos_done = []      # one event per SUBMITTED task, in submission order
 		self.error = None
 		self.shutdown_called = False
 		self.impatient = 0
@@ -118,7 +131,9 @@ def recording(base):
 				ctl.submitted.append(i)      # submission order as observed (an implementation may submit in any order)
 				ctl.tick.notify_all()
 			ctl.futs.append(fut)
-			fut.add_done_callback(lambda f, i=i: ctl.fut_done[i].set())
+			ev = threading.Event()
+			ctl.pos_done.append(ev)
+			fut.add_done_callback(lambda f, ev=ev: ev.set())
 			if len(ctl.futs) == ctl.n:
 				if not ctl.pre_done.wait(TIMEOUT):
 					ctl.error = ctl.error or 'pre-completion phase timed out'
@@ -147,7 +162,9 @@ class ManualExecutor(Executor):
 			ctl.submitted.append(i)
 			ctl.tick.notify_all()
 		ctl.futs.append(fut)
-		fut.add_done_callback(lambda f, i=i: ctl.fut_done[i].set())
+		ev = threading.Event()
+		ctl.pos_done.append(ev)
+		fut.add_done_callback(lambda f, ev=ev: ev.set())
 		if len(ctl.futs) == ctl.n:
 			if not ctl.pre_done.wait(TIMEOUT):
 				ctl.error = ctl.error or 'pre-completion phase timed out'
@@ -226,13 +243,26 @@ def controller(ctl, order, p, manual):
 			completed_pos.add(pos)
 			i = ctl.submitted[pos]
 			if manual is None:
-				# the model says task i is running now: validate against the implementation
-				if not ctl.at_gate[i].wait(TIMEOUT):
-					raise Divergence(f'model/implementation divergence: task {i} should be running (order {order}) but never reached its gate')
-				ctl.gates[i].release()
+				# the model says this task is running now: validate against the implementation.  A task about several files opens them one
+				# after the other: each reaches its gate and is let through in turn.
+				for fi in (i if isinstance(i, list) else [i]):
+					t0 = _time.time()
+					ended = False
+					while not ctl.at_gate[fi].wait(0.002):
+						if isinstance(i, list) and len(ctl.pos_done) > pos and ctl.pos_done[pos].is_set():
+							ended = True          # a task about several files may end early (one of its files failed)
+							break
+						if _time.time() - t0 > TIMEOUT:
+							raise Divergence(f'model/implementation divergence: task {i} should be running (order {order}) but file {fi} never reached its gate')
+					if ended:
+						break
+					ctl.gates[fi].release()
 			else:
 				manual.complete(pos)
-			if not ctl.fut_done[i].wait(TIMEOUT):
+			t0 = _time.time()
+			while len(ctl.pos_done) <= pos and _time.time() - t0 < TIMEOUT:
+				_time.sleep(0.0005)
+			if len(ctl.pos_done) <= pos or not ctl.pos_done[pos].wait(TIMEOUT):
 				raise Divergence(f'future of task {i} not done after its gate was released')
 			done += 1
 			if done == p:
@@ -955,9 +985,16 @@ def t_pool_bodies(ki, bound):
 			th.start()
 			try:
 				t0 = _time.time()
+				last, since = -1, _time.time()
 				while not instances or len(instances[0].captured) < n:
 					if 'exc' in box or _time.time() - t0 > TIMEOUT:
 						raise HarnessError(f'tasks were not handed to the pool: {box.get("exc")!r}')
+					# an implementation may hand over FEWER tasks than files (batches): go on once the number of tasks has stopped growing
+					cur = len(instances[0].captured) if instances else 0
+					if cur != last:
+						last, since = cur, _time.time()
+					elif cur > 0 and _time.time() - since > 0.25:
+						break
 					_time.sleep(0.0002)
 				cap = instances[0].captured
 
